@@ -13,7 +13,7 @@ from harness.pool import Pool
 
 CFG = "INIT Init\nNEXT Next\nCHECK_DEADLOCK FALSE\nINVARIANT ReadBack\nINVARIANT MalformedRejected\nINVARIANT SameEffect\n"
 DELTAS = [-0x200, -1, 0, 1, 0x200, 0x8000]
-PLACEMENTS = ["first", "between", "block", "after", "reloc_rom", "reloc_ram", "macro"]
+PLACEMENTS = ["first", "between", "block", "after", "reloc_rom", "reloc_ram", "macro", "macro2"]
 
 
 def kind(recs) -> str:
@@ -69,6 +69,9 @@ def run(ctx) -> None:
     for k, (m, o) in enumerate(zip(meta, res)):
         if o.get("hang") or o.get("driver_error") or o.get("crash"):
             raise tlc.TLCFailure(f"driver failed on {m['delta']}/{m['placement']}: {o}")
+        if m["placement"] == "macro2":
+            # two applications: the records at delta and again at delta + 0x40000
+            m = dict(m, recs=m["recs"] + [dict(r_, off=r_["off"] + 0x40000) for r_ in m["recs"]])
         recs.append({"id": str(k), "recs": m["recs"], "delta": m["delta"], "malformed": bool(m["malformed"]),
                      "base": {k2: o["base"][k2] for k2 in ("ok", "calls", "labels")},
                      "with": {k2: o["with"][k2] for k2 in ("ok", "calls", "labels")}})
